@@ -72,6 +72,18 @@ def build(which="mapper"):
     extract_struct(u, st, "Throwable")
     extract_struct(u, st, "StackTrace")
     u.raw(CLONE_THROWABLE, "glue")
+    # the constructors of the value types (contracts proved on the same text in unit u18): code under contract here may call them
+    for _impl, _fns in (("impl<'s> Throwable<'s>", (("new", "ret.class == class && ret.message is None"), ("with_message", "ret.class == class && ret.message == Some(message)"))),
+                        ("impl<'s> StackFrame<'s>", (("new", "ret.class == class && ret.method == method && ret.line == line && ret.file is None && ret.parameters is None"),))):
+        u.raw(st.impl_header(_impl) + "{\n", "glue")
+        for _nm, _post in _fns:
+            _g = st.impl_fn(_impl, _nm)
+            _g.ret("ret")
+            _g.contracted = True
+            _g.props_all = ["C08"]
+            _g.contract("    ensures %s," % _post)
+            u.emit(_g)
+        u.raw("}\n", "glue")
     from .common import CLONE_STACKFRAME
     u.raw(CLONE_STACKFRAME, "glue")
     u.raw(MODEL, "model")
